@@ -329,6 +329,11 @@ func Send(method, rawurl string, options ...SendOption) (*http.Response, error) 
 		Transport:     opts.transport,
 	}
 
+	// An attempt consumes the request body, so every retry must first restore
+	// it. If that is impossible we stop retrying rather than send a request
+	// with a missing or truncated body.
+	replayBody := bodyReplayer(req, opts.body)
+
 	var resp *http.Response
 	for {
 		resp, err = client.Do(req)
@@ -354,6 +359,13 @@ func Send(method, rawurl string, options ...SendOption) (*http.Response, error) 
 			if d == backoff.Stop {
 				break // Backoff timed out.
 			}
+			if replayBody == nil {
+				break // Body cannot be sent again.
+			}
+			if rerr := replayBody(); rerr != nil {
+				log.Errorf("Not retrying %s %s: cannot replay request body: %s", method, rawurl, rerr)
+				break
+			}
 			time.Sleep(d)
 			continue
 		}
@@ -366,6 +378,36 @@ func Send(method, rawurl string, options ...SendOption) (*http.Response, error) 
 		return nil, NewStatusError(resp)
 	}
 	return resp, nil
+}
+
+// bodyReplayer returns a function which restores the body of req to what it was
+// before the first attempt, or nil if body can only be read once.
+func bodyReplayer(req *http.Request, body io.Reader) func() error {
+	if body == nil || req.Body == nil || req.Body == http.NoBody {
+		return func() error { return nil }
+	}
+	if req.GetBody != nil {
+		// http.NewRequest took a snapshot (bytes.Buffer, bytes.Reader, strings.Reader).
+		return func() error {
+			b, err := req.GetBody()
+			if err != nil {
+				return err
+			}
+			req.Body = b
+			return nil
+		}
+	}
+	if s, ok := body.(io.Seeker); ok {
+		start, err := s.Seek(0, io.SeekCurrent)
+		if err != nil {
+			return nil
+		}
+		return func() error {
+			_, err := s.Seek(start, io.SeekStart)
+			return err
+		}
+	}
+	return nil
 }
 
 // Get sends a GET http request.
